@@ -15,22 +15,23 @@ const SimAddr = "sim.example:5222"
 
 // ClientOpts is the client configuration drawn by a scenario.
 type ClientOpts struct {
-	Insecure       bool   `json:"insecure"`
-	TLS            int    `json:"tls_config"` // 0 nil, 1 RootCAs=fixture CA, 2 InsecureSkipVerify
-	ServerName     string `json:"server_name,omitempty"`
-	SM             bool   `json:"stream_management"`
-	SMResume       bool   `json:"sm_resume_flag"`
-	Resource       string `json:"resource,omitempty"`
-	OAuth          bool   `json:"oauth,omitempty"`
-	User           string `json:"user"`
-	Secret         string `json:"secret"`
-	KeepaliveNs    int64  `json:"keepalive_ns"`
-	ConnectTimeout int    `json:"connect_timeout_s"`
-	Logger         int    `json:"logger"` // 0 none, 1 recording, 2 failing
-	WebSocket      bool   `json:"websocket,omitempty"`
-	StreamDomain   string `json:"stream_domain,omitempty"`   // TransportConfiguration.Domain set explicitly (a hosted domain: the stream is opened to it, the JID keeps its own)
-	TLSMax12       bool   `json:"tls_1_2_at_most,omitempty"` // the application's TLS config does not go beyond TLS 1.2
-	Address        string `json:"address,omitempty"`         // overrides the default address of the chosen transport
+	Insecure        bool   `json:"insecure"`
+	TLS             int    `json:"tls_config"` // 0 nil, 1 RootCAs=fixture CA, 2 InsecureSkipVerify
+	ServerName      string `json:"server_name,omitempty"`
+	SM              bool   `json:"stream_management"`
+	SMResume        bool   `json:"sm_resume_flag"`
+	Resource        string `json:"resource,omitempty"`
+	OAuth           bool   `json:"oauth,omitempty"`
+	User            string `json:"user"`
+	Secret          string `json:"secret"`
+	KeepaliveNs     int64  `json:"keepalive_ns"`
+	ConnectTimeout  int    `json:"connect_timeout_s"`
+	TLSSessionCache bool   `json:"tls_client_session_cache,omitempty"` // the application's tls.Config resumes TLS sessions
+	Logger          int    `json:"logger"`                             // 0 none, 1 recording, 2 failing
+	WebSocket       bool   `json:"websocket,omitempty"`
+	StreamDomain    string `json:"stream_domain,omitempty"`   // TransportConfiguration.Domain set explicitly (a hosted domain: the stream is opened to it, the JID keeps its own)
+	TLSMax12        bool   `json:"tls_1_2_at_most,omitempty"` // the application's TLS config does not go beyond TLS 1.2
+	Address         string `json:"address,omitempty"`         // overrides the default address of the chosen transport
 }
 
 const (
@@ -153,6 +154,9 @@ func NewCW(e *Engine, o ClientOpts, certs *CertSet) *CW {
 	}
 	if o.StreamDomain != "" {
 		cfg.TransportConfiguration.Domain = o.StreamDomain
+	}
+	if o.TLSSessionCache && cfg.TLSConfig != nil {
+		cfg.TLSConfig.ClientSessionCache = tls.NewLRUClientSessionCache(4)
 	}
 	if o.TLSMax12 && cfg.TLSConfig != nil {
 		cfg.TLSConfig.MaxVersion = tls.VersionTLS12
